@@ -1,6 +1,7 @@
 package props
 
 import (
+	"archive/tar"
 	"bytes"
 	"fmt"
 	"io"
@@ -38,7 +39,7 @@ func (c15) Batches(tier string, seed uint64) []core.Batch {
 
 func (c15) Mandatory(tier string) []string {
 	m := []string{"ar:members-returned", "reader:overlong-SectionReader", "ar:eof", "deb:loaded", "corrupt:magic-first-byte", "corrupt:magic-second-byte", "corrupt:magic-both",
-		"corrupt:truncation", "corrupt:duplicate-member", "corrupt:two-control", "corrupt:two-data", "corrupt:reordered", "corrupt:size+1", "corrupt:size-1", "corrupt:random-bytes"}
+		"corrupt:truncation", "corrupt:duplicate-member", "corrupt:two-control", "corrupt:two-data", "corrupt:reordered", "corrupt:control-tar-without-control", "corrupt:bare-standard-name", "corrupt:size+1", "corrupt:size-1", "corrupt:random-bytes"}
 	for _, col := range []string{"name", "mtime", "uid", "gid", "mode", "size"} {
 		m = append(m, "corrupt:column-"+col)
 	}
@@ -380,7 +381,33 @@ func (p c15) RunBatch(t *core.T, b core.Batch) {
 		for i := 0; i < b.N; i++ {
 			_, members := smallDeb(r)
 			tag := ""
-			switch r.Intn(6) {
+			switch r.Intn(8) {
+			case 6: // a control tarball that is well-formed but holds no control file
+				var ents []tarEnt
+				switch r.Intn(4) {
+				case 0:
+					ents = []tarEnt{{Name: "./md5sums", Type: '0', Data: []byte("d41d8cd98f00b204e9800998ecf8427e  usr/x\n"), Mode: 0o644}}
+				case 1:
+					ents = nil // an empty tar: two zero blocks
+				case 2:
+					ents = []tarEnt{{Name: "./", Type: tar.TypeDir, Mode: 0o755}, {Name: "./control/", Type: tar.TypeDir, Mode: 0o755}}
+				default:
+					ents = []tarEnt{{Name: "./postinst", Type: '0', Data: []byte("#!/bin/sh\n"), Mode: 0o755}, {Name: "./conffiles", Type: '0', Data: nil, Mode: 0o644}}
+				}
+				tarb := writeTar(ents)
+				if strings.HasSuffix(members[1].Name, ".gz") {
+					tarb, _ = compress("gz", tarb)
+				}
+				members[1].Data = tarb
+				if r.Chance(1, 5) {
+					members[1].Data = nil // a zero-length member
+				}
+				tag = "corrupt:control-tar-without-control"
+			case 7: // an extra member named like a standard one without its extension
+				extra := model.ArMember{Name: r.Pick([]string{"data", "control", "data/", "debian-binary.old", "control/"}), Mode: "100644", Data: r.Bytes(r.Range(0, 40))}
+				pos := 1 + r.Intn(len(members))
+				members = append(members[:pos], append([]model.ArMember{extra}, members[pos:]...)...)
+				tag = "corrupt:bare-standard-name"
 			case 0: // same-name duplicate
 				k := r.Intn(len(members))
 				dup := members[k]
